@@ -31,6 +31,7 @@ type Profile struct {
 	Steps       int // actions per history
 	Stale       bool // allow scans without cache sync
 	NoNegRates  bool
+	FaultFocus  string // "" = any call; "node-writes" = get/update failures aimed at early calls or single nodes
 }
 
 // DrawConfig draws a configuration the real validator accepts.
@@ -366,6 +367,11 @@ func (w *World) DrawAction(rt *rapid.T, p *Profile) (Action, string) {
 			if rapid.IntRange(0, 7).Draw(rt, "overhead") == 0 {
 				ps.OverCPU, ps.OverMem = 10, 1_000_000
 			}
+			if ng > 1 && ps.Via == "selector" && rapid.IntRange(0, 2).Draw(rt, "cross") == 0 {
+				og := (g + 1 + rapid.IntRange(0, ng-2).Draw(rt, "crossGroup")) % ng
+				ps.Cross = fmt.Sprintf("%s:%d", rapid.SampledFrom([]string{"notin", "otherkey", "exists"}).Draw(rt, "crossKind"), og)
+				ps.CPU += w.Cfg.Groups[og].NodeCPU * int64(rapid.IntRange(0, 3).Draw(rt, "crossCPU"))
+			}
 			if len(nodes) > 0 && rapid.Bool().Draw(rt, "bound") {
 				ps.Node = rapid.SampledFrom(nodes).Draw(rt, "podNode")
 			}
@@ -473,7 +479,27 @@ func (w *World) DrawAction(rt *rapid.T, p *Profile) (Action, string) {
 		}
 	case "restart":
 		return Action{Op: "restart"}, "restart"
+	case "setCreated":
+		if n, ok := needNode(); ok {
+			if rapid.IntRange(0, 2).Draw(rt, "zero") == 0 {
+				return Action{Op: "setCreated", Node: n, Flag: true}, "setCreated/zero"
+			}
+			return Action{Op: "setCreated", Node: n, N: rapid.SampledFrom([]int{0, 1, 100, 100, 5000, 86400}).Draw(rt, "age")}, "setCreated/age"
+		}
+	case "drainAndForce":
+		names := w.GroupNodeNames(g)
+		if len(names) > 0 {
+			k := rapid.IntRange(1, minInt(3, len(names))).Draw(rt, "k")
+			return Action{Op: "drainAndForce", Group: g, Names: rapid.Permutation(names).Draw(rt, "nodes")[:k]}, "drainAndForce"
+		}
 	case "fault":
+		if p.FaultFocus == "node-writes" && rapid.IntRange(0, 3).Draw(rt, "focused") > 0 {
+			f := sim.Fault{Kind: rapid.SampledFrom([]string{sim.KGet, sim.KUpdate}).Draw(rt, "kind"), Nth: rapid.IntRange(0, 3).Draw(rt, "nth")}
+			if len(nodes) > 0 && rapid.Bool().Draw(rt, "byNode") {
+				f.Nth, f.Node = -1, rapid.SampledFrom(nodes).Draw(rt, "node")
+			}
+			return Action{Op: "fault", Faults: []sim.Fault{f}}, "fault/node-writes"
+		}
 		return w.drawFault(rt), "fault"
 	case "fleetPlan":
 		fp := &sim.FleetPlan{
